@@ -1,3 +1,885 @@
-/- C06 (statements are being added) -/
+/-
+  C06 — repr(schema) is DSL source that rebuilds an equal schema (scalar schemas; containers print their
+  members recursively with the same function, see `represent`).
+
+  The printed text is split into *which calls are printed* (`scalarCalls`) and *how a call is rendered*
+  (`opToks`); Python's parser turns the rendered text back into those calls (trusted). The theorem is
+  that replaying the printed calls through the declaration model rebuilds exactly the schema.
+-/
 import D42.Model.Repr
 import D42.Model.Decl
+import D42.Props.C11
+
+namespace D42
+
+/-- the empty schema of the same type (`schema.int`, `schema.str`, …) -/
+def freshOf : ScalarS → ScalarS
+  | .none => .none
+  | .bool _ => .bool none
+  | .int .. => .int none none none
+  | .float .. => .float none none none none none none
+  | .str .. => .str none {} none none none
+  | .bytes _ => .bytes none
+  | .uuid4 _ => .uuid4 none
+  | .datetime _ => .datetime none
+  | .date _ => .date none
+
+def facadeName : ScalarS → String
+  | .none => "schema.none" | .bool _ => "schema.bool" | .int .. => "schema.int" | .float .. => "schema.float"
+  | .str .. => "schema.str" | .bytes _ => "schema.bytes" | .uuid4 _ => "schema.uuid4"
+  | .datetime _ => "schema.datetime" | .date _ => "schema.date"
+
+def optCall {α} (f : α → Op) : Option α → List Op
+  | some a => [f a]
+  | none => []
+
+/-- the `len(...)` call that is printed for the declared length props -/
+def lenCall (L : LenP) : List Op :=
+  match L.len, L.minLen, L.maxLen with
+  | some n, _, _ => [.len (.v (.int n)) .nil]
+  | none, some a, some b => [.len (.v (.int a)) (.v (.int b))]
+  | none, some a, none => [.len (.v (.int a)) (.v .ellipsis)]
+  | none, none, some b => [.len (.v .ellipsis) (.v (.int b))]
+  | none, none, none => []
+
+/-- the refinement calls `repr` prints for a scalar schema, in the order it prints them
+    (value; min, max, precision; alphabet, contains, regex, len) -/
+def scalarCalls : ScalarS → List Op
+  | .none => []
+  | .bool v => optCall (fun b => .call (.v (.bool b))) v
+  | .int v mn mx => optCall (fun x => .call (.v (.int x))) v ++ optCall (fun x => .min (.v (.int x))) mn ++
+      optCall (fun x => .max (.v (.int x))) mx
+  | .float v mn mx p _ _ => optCall (fun x => .call (.v (.float x))) v ++ optCall (fun x => .min (.v (.float x))) mn ++
+      optCall (fun x => .max (.v (.float x))) mx ++ optCall (fun (x : Nat) => .precision (.v (.int x))) p
+  | .str v L al sub pat => optCall (fun x => .call (.v (.str x))) v ++ optCall (fun x => .alphabet (.v (.str x))) al ++
+      optCall (fun x => .contains (.v (.str x))) sub ++ optCall (fun x => .regex (.pat true x true)) pat ++ lenCall L
+  | .bytes v => optCall (fun x => .call (.v (.bytes x))) v
+  | .uuid4 v => optCall (fun (x : Nat × Nat) => .call (.v (.uuid x.1 x.2))) v
+  | .datetime v => optCall (fun x => .call (.v (.datetime x))) v
+  | .date v => optCall (fun (x : Bool × Nat) => .call (.v (if x.1 then .datetime x.2 else .date x.2))) v
+
+/-- how one call is rendered -/
+def argToks : Arg → List Tok
+  | .v .ellipsis => [.t "..."]
+  | .v x => [.val x]
+  | .pat _ p _ => [.pat p.id]
+  | _ => []
+
+def opToks : Op → List Tok
+  | .call a => [.t "("] ++ argToks a ++ [.t ")"]
+  | .min a => [.t ".min("] ++ argToks a ++ [.t ")"]
+  | .max a => [.t ".max("] ++ argToks a ++ [.t ")"]
+  | .precision a => [.t ".precision("] ++ argToks a ++ [.t ")"]
+  | .alphabet a => [.t ".alphabet("] ++ argToks a ++ [.t ")"]
+  | .contains a => [.t ".contains("] ++ argToks a ++ [.t ")"]
+  | .regex a => [.t ".regex("] ++ argToks a ++ [.t ")"]
+  | .len a .nil => [.t ".len("] ++ argToks a ++ [.t ")"]
+  | .len a b => [.t ".len("] ++ argToks a ++ [.t ", "] ++ argToks b ++ [.t ")"]
+  | .anyCall _ => []
+
+/-- join adjacent text tokens so that token lists can be compared as rendered text -/
+def flattenToks : List Tok → List Tok
+  | .t a :: .t b :: r => flattenToks (.t (a ++ b) :: r)
+  | x :: r => x :: flattenToks r
+  | [] => []
+termination_by l => l.length
+
+/-! ### helper lemmas and proofs -/
+
+theorem reprElems_indent (s : Schema) (ss : List Schema) (ind : Nat) :
+    reprElems (s :: ss) ind = ([.t (spaces ind)] ++ represent s ind) :: reprElems ss ind := by
+  rw [reprElems]
+
+/-- nested containers are printed at `indent + 4` and closed at `indent` -/
+theorem represent_listE_layout (es : List Schema) (L : LenP) (ind : Nat) (e : Schema) :
+    represent (.listE false (e :: es) false L) ind =
+      [.t "schema.list([\n"] ++ joinToks ",\n" (reprElems (e :: es) (ind + 4)) ++
+      [.t ("\n" ++ spaces ind ++ "])")] ++ reprLen L := by
+  rw [represent, reprElems]
+  simp
+
+/-- `flattenToks` is a right fold of this step -/
+def tokStep : Tok → List Tok → List Tok
+  | .t a, .t b :: r => .t (a ++ b) :: r
+  | x, r => x :: r
+
+theorem tokStep_assoc (a b : String) (z : List Tok) :
+    tokStep (.t a) (tokStep (.t b) z) = tokStep (.t (a ++ b)) z := by
+  cases z with
+  | nil => simp [tokStep]
+  | cons y z => cases y <;> simp [tokStep, String.append_assoc]
+
+theorem flattenToks_cons_aux (n : Nat) : ∀ (x : Tok) (r : List Tok), r.length ≤ n →
+    flattenToks (x :: r) = tokStep x (flattenToks r) := by
+  induction n with
+  | zero =>
+    intro x r hr
+    cases r with
+    | nil => cases x <;> simp [flattenToks, tokStep]
+    | cons y r => simp at hr
+  | succ n ih =>
+    intro x r hr
+    cases r with
+    | nil => cases x <;> simp [flattenToks, tokStep]
+    | cons y r =>
+      have hr' : r.length ≤ n := by simp at hr; omega
+      cases x with
+      | t a =>
+        cases y with
+        | t b =>
+          rw [flattenToks, ih _ _ hr', ih _ _ hr', tokStep_assoc]
+        | _ => rw [flattenToks] <;> simp [ih _ _ hr', tokStep]
+      | _ => rw [flattenToks] <;> simp [tokStep]
+
+theorem flattenToks_cons (x : Tok) (r : List Tok) :
+    flattenToks (x :: r) = tokStep x (flattenToks r) :=
+  flattenToks_cons_aux r.length x r (Nat.le_refl _)
+
+theorem flattenToks_append_congr (a b b' : List Tok) (h : flattenToks b = flattenToks b') :
+    flattenToks (a ++ b) = flattenToks (a ++ b') := by
+  induction a with
+  | nil => simpa using h
+  | cons x a ih => simp only [List.cons_append, flattenToks_cons, ih]
+
+theorem reprLen_eq_lenCall (L : LenP) :
+    flattenToks (reprLen L) = flattenToks ((lenCall L).flatMap opToks) := by
+  obtain ⟨l, mn, mx⟩ := L
+  cases l <;> cases mn <;> cases mx <;>
+    simp [reprLen, lenCall, opToks, argToks, reprInt, flattenToks_cons, tokStep, flattenToks]
+
+/-- **the printed text is exactly the facade name followed by the rendered calls** (no constraint,
+    flag or value is lost or altered in the text) -/
+theorem reprScalar_eq_calls (k : ScalarS) :
+    flattenToks (reprScalar k) = flattenToks (.t (facadeName k) :: (scalarCalls k).flatMap opToks) := by
+  cases k with
+  | str v L al sub pat =>
+    have : reprScalar (.str v L al sub pat) =
+        (.t "schema.str" :: (optCall (fun x => Op.call (.v (.str x))) v ++ optCall (fun x => Op.alphabet (.v (.str x))) al ++
+      optCall (fun x => Op.contains (.v (.str x))) sub ++ optCall (fun x => Op.regex (.pat true x true)) pat).flatMap opToks) ++ reprLen L := by
+      cases v <;> cases al <;> cases sub <;> cases pat <;> simp [reprScalar, optCall, opToks, argToks, callTok]
+    rw [this]
+    simp only [scalarCalls, facadeName, List.flatMap_append, ← List.cons_append]
+    exact flattenToks_append_congr _ _ _ (reprLen_eq_lenCall L)
+  | none => simp [reprScalar, facadeName, scalarCalls]
+  | bool v => cases v <;> simp [reprScalar, facadeName, scalarCalls, optCall, opToks, argToks, callTok]
+  | int v mn mx => cases v <;> cases mn <;> cases mx <;> simp [reprScalar, facadeName, scalarCalls, optCall, opToks, argToks, callTok, reprInt]
+  | float v mn mx p d1 d2 => cases v <;> cases mn <;> cases mx <;> cases p <;> simp [reprScalar, facadeName, scalarCalls, optCall, opToks, argToks, callTok, reprInt]
+  | bytes v => cases v <;> simp [reprScalar, facadeName, scalarCalls, optCall, opToks, argToks, callTok]
+  | uuid4 v => rcases v with _ | ⟨i, ver⟩ <;> simp [reprScalar, facadeName, scalarCalls, optCall, opToks, argToks, callTok]
+  | datetime v => cases v <;> simp [reprScalar, facadeName, scalarCalls, optCall, opToks, argToks, callTok]
+  | date v => rcases v with _ | ⟨_ | _, i⟩ <;> simp [reprScalar, facadeName, scalarCalls, optCall, opToks, argToks, callTok]
+
+/-- the length props of a reachable str schema: `len` excludes `min_len`/`max_len`, and a fixed value
+    is consistent with each of them -/
+def LenOK (v : Option Str) (L : LenP) : Prop :=
+  (L.len.isSome → L.minLen = none ∧ L.maxLen = none) ∧
+  ∀ s, v = some s →
+    (∀ n, L.len = some n → (s.length : Int) = n) ∧
+    (∀ n, L.minLen = some n → n ≤ (s.length : Int)) ∧
+    (∀ n, L.maxLen = some n → (s.length : Int) ≤ n)
+
+/-- invariant of the scalar schemas reachable by `declScalar` calls from the empty schema -/
+def Inv : ScalarS → Prop
+  | .int v mn mx =>
+    (∀ x n, v = some x → mn = some n → n ≤ x) ∧ (∀ x n, v = some x → mx = some n → x ≤ n)
+  | .float v mn mx p d1 d2 =>
+    d1 = none ∧ d2 = none ∧
+    (∀ x f, v = some x → mn = some f → PyFloat.le f x = true) ∧
+    (∀ x f, v = some x → mx = some f → PyFloat.ge f x = true) ∧
+    (∀ n, p = some n → 1 ≤ n ∧ n ≤ 15)
+  | .str v L al sub pat =>
+    (pat.isSome → L = {} ∧ al = none ∧ sub = none) ∧ LenOK v L ∧
+    (∀ s l, v = some s → al = some l → s.all (fun c => l.contains c) = true) ∧
+    (∀ s x, v = some s → sub = some x → isInfixB x s = true)
+  | .uuid4 v => ∀ i ver, v = some (i, ver) → ver = 4
+  | _ => True
+
+theorem anySet_false (L : LenP) (h : L.anySet = false) : L = {} := by
+  obtain ⟨l, mn, mx⟩ := L
+  cases l <;> cases mn <;> cases mx <;> simp_all [LenP.anySet]
+
+theorem anySet_false_iff (L : LenP) : L.anySet = false ↔ L = {} := by
+  constructor
+  · exact anySet_false L
+  · rintro rfl; rfl
+
+theorem strDeclLen_ok (v : Option Str) (L L' : LenP) (a : Arg) (h : strDeclLen v L a = .ok L') :
+    ∃ n, argInt a = some n ∧ L' = { L with len := some n } ∧ ∀ s, v = some s → (s.length : Int) = n := by
+  unfold strDeclLen at h
+  repeat' split at h
+  all_goals (try (simp at h; done))
+  all_goals (simp at h; subst h; exact ⟨_, by assumption, rfl, by simp_all⟩)
+
+theorem strDeclMin_ok (v : Option Str) (L L' : LenP) (a : Arg) (h : strDeclMin v L a = .ok L') :
+    ∃ n, argInt a = some n ∧ L' = { L with minLen := some n } ∧ ∀ s, v = some s → n ≤ (s.length : Int) := by
+  unfold strDeclMin at h
+  repeat' split at h
+  all_goals (try (simp at h; done))
+  all_goals (simp at h; subst h; exact ⟨_, by assumption, rfl, by simp_all; try omega⟩)
+
+theorem strDeclMax_ok (v : Option Str) (L L' : LenP) (a : Arg) (h : strDeclMax v L a = .ok L') :
+    ∃ n, argInt a = some n ∧ L' = { L with maxLen := some n } ∧ ∀ s, v = some s → (s.length : Int) ≤ n := by
+  unfold strDeclMax at h
+  repeat' split at h
+  all_goals (try (simp at h; done))
+  all_goals (simp at h; subst h; exact ⟨_, by assumption, rfl, by simp_all; try omega⟩)
+
+theorem strLen_ok (v : Option Str) (L' : LenP) (a b : Arg) (h : strLen v {} a b = .ok L') : LenOK v L' := by
+  unfold strLen declLenDispatch at h
+  split at h
+  · obtain ⟨n, _, rfl, hn⟩ := strDeclMax_ok _ _ _ _ h
+    simp_all [LenOK]
+  · split at h
+    · obtain ⟨n, _, rfl, hn⟩ := strDeclLen_ok _ _ _ _ h
+      simp_all [LenOK]
+    · split at h
+      · obtain ⟨n, _, rfl, hn⟩ := strDeclMin_ok _ _ _ _ h
+        simp_all [LenOK]
+      · cases h1 : strDeclMin v {} a with
+        | error e => simp [h1, bind, Except.bind] at h
+        | ok L1 =>
+          simp only [h1, bind, Except.bind] at h
+          obtain ⟨n, _, rfl, hn⟩ := strDeclMin_ok _ _ _ _ h1
+          obtain ⟨m, _, rfl, hm⟩ := strDeclMax_ok _ _ _ _ h
+          simp_all [LenOK]
+
+
+theorem inv_step_str_len (v : Option Str) (L : LenP) (al sub : Option Str) (pat : Option Pat) (a b : Arg) (k' : ScalarS)
+    (hi : Inv (.str v L al sub pat)) (h : declScalar (.str v L al sub pat) (.len a b) = .ok k') : Inv k' := by
+  rw [str_len] at h
+  split at h
+  · cases h
+  · rename_i hc
+    simp only [Bool.or_eq_true, not_or, Bool.not_eq_true] at hc
+    obtain ⟨hL, hp⟩ := hc
+    have hL := anySet_false L hL
+    subst hL
+    cases h1 : strLen v {} a b with
+    | error e => simp [h1] at h
+    | ok L1 =>
+      simp only [h1] at h
+      cases h
+      have := strLen_ok _ _ _ _ h1
+      simp_all [Inv]
+
+theorem int_call (v mn mx : Option Int) (a : Arg) : declScalar (.int v mn mx) (.call a) =
+    (match argInt a with
+     | none => DErr
+     | some n => if v.isSome then DErr else if mn.isSome || mx.isSome then DErr else .ok (.int (some n) mn mx)) := rfl
+
+theorem float_call (v mn mx : Option PyFloat) (p : Option Nat) (d1 d2 : Option Rat) (a : Arg) :
+    declScalar (.float v mn mx p d1 d2) (.call a) =
+    (match argFloat a with
+     | none => DErr
+     | some f => if v.isSome then DErr else if mn.isSome || mx.isSome then DErr else .ok (.float (some f) mn mx p d1 d2)) := rfl
+
+theorem str_call (v : Option Str) (L : LenP) (al sub : Option Str) (pat : Option Pat) (a : Arg) :
+    declScalar (.str v L al sub pat) (.call a) =
+    (match argStr a with
+     | none => DErr
+     | some s => if v.isSome || L.anySet || al.isSome || sub.isSome || pat.isSome then DErr
+        else .ok (.str (some s) L al sub pat)) := rfl
+
+theorem inv_step_call (k k' : ScalarS) (a : Arg) (hi : Inv k) (h : declScalar k (.call a) = .ok k') : Inv k' := by
+  cases k with
+  | none => cases h
+  | int v mn mx =>
+    rw [int_call] at h
+    repeat' split at h
+    all_goals (try (simp at h; done))
+    all_goals (simp at h; subst h; simp_all [Inv])
+  | float v mn mx p d1 d2 =>
+    rw [float_call] at h
+    repeat' split at h
+    all_goals (try (simp at h; done))
+    all_goals (simp at h; subst h; simp_all [Inv])
+  | str v L al sub pat =>
+    rw [str_call] at h
+    repeat' split at h
+    all_goals (try (simp at h; done))
+    all_goals (simp at h; subst h; simp_all [Inv, anySet_false_iff, LenOK])
+  | bool v =>
+    cases a <;> (try (cases h; done))
+    rename_i x
+    cases x <;> (try (cases h; done))
+    simp only [declScalar] at h
+    split at h <;> cases h
+    trivial
+  | bytes v =>
+    cases a <;> (try (cases h; done))
+    rename_i x
+    cases x <;> (try (cases h; done))
+    simp only [declScalar] at h
+    split at h <;> cases h
+    trivial
+  | datetime v =>
+    cases a <;> (try (cases h; done))
+    rename_i x
+    cases x <;> (try (cases h; done))
+    simp only [declScalar] at h
+    split at h <;> cases h
+    trivial
+  | date v =>
+    cases a <;> (try (cases h; done))
+    rename_i x
+    cases x <;> (try (cases h; done))
+    all_goals (simp only [declScalar] at h; split at h <;> cases h; trivial)
+  | uuid4 v =>
+    cases a <;> (try (cases h; done))
+    rename_i x
+    cases x <;> (try (cases h; done))
+    simp only [declScalar] at h
+    repeat' split at h
+    all_goals (try (cases h; done))
+    cases h
+    simp_all [Inv]
+
+theorem inv_step (k k' : ScalarS) (op : Op) (hi : Inv k) (h : declScalar k op = .ok k') : Inv k' := by
+  cases op with
+  | len a b =>
+    cases k with
+    | str v L al sub pat => exact inv_step_str_len v L al sub pat a b k' hi h
+    | _ => cases h
+  | anyCall _ => cases k <;> cases h
+  | min a =>
+    cases k with
+    | int v mn mx =>
+      rw [int_min] at h
+      repeat' split at h
+      all_goals (try (simp at h; done))
+      all_goals (simp at h; subst h; simp_all [Inv]; try omega)
+    | float v mn mx p d1 d2 =>
+      rw [float_min] at h
+      repeat' split at h
+      all_goals (try (simp at h; done))
+      all_goals (simp at h; subst h; simp_all [Inv])
+    | _ => cases h
+  | max a =>
+    cases k with
+    | int v mn mx =>
+      rw [int_max] at h
+      repeat' split at h
+      all_goals (try (simp at h; done))
+      all_goals (simp at h; subst h; simp_all [Inv]; try omega)
+    | float v mn mx p d1 d2 =>
+      rw [float_max] at h
+      repeat' split at h
+      all_goals (try (simp at h; done))
+      all_goals (simp at h; subst h; simp_all [Inv])
+    | _ => cases h
+  | precision a =>
+    cases k with
+    | float v mn mx p d1 d2 =>
+      rw [float_precision] at h
+      cases ha : argInt a with
+      | none => simp [ha] at h
+      | some n =>
+        simp only [ha] at h
+        cases hb : (decide (1 ≤ n) && decide (n ≤ (Consts.FLOAT_DIG : Int))) with
+        | false => rw [hb] at h; simp at h
+        | true =>
+          rw [hb] at h
+          cases p with
+          | some _ => simp at h
+          | none =>
+            simp at h
+            subst h
+            simp [Consts.FLOAT_DIG] at hb
+            simp_all [Inv]
+            have h2 := of_decide_eq_true hb.2; omega
+    | _ => cases h
+  | alphabet a =>
+    cases k with
+    | str v L al sub pat =>
+      rw [str_alphabet] at h
+      repeat' split at h
+      all_goals (try (simp at h; done))
+      all_goals (simp at h; subst h; simp_all [Inv])
+    | _ => cases h
+  | contains a =>
+    cases k with
+    | str v L al sub pat =>
+      rw [str_contains] at h
+      repeat' split at h
+      all_goals (try (simp at h; done))
+      all_goals (simp at h; subst h; simp_all [Inv])
+    | _ => cases h
+  | regex a =>
+    cases k with
+    | str v L al sub pat =>
+      rw [str_regex] at h
+      repeat' split at h
+      all_goals (try (simp at h; done))
+      all_goals (simp at h; subst h; simp_all [Inv, anySet_false_iff])
+    | _ => cases h
+  | call a => exact inv_step_call k k' a hi h
+
+
+theorem inv_run (ops : List Op) : ∀ (k k' : ScalarS), Inv k → runScalar k ops = .ok k' → Inv k' := by
+  induction ops with
+  | nil => intro k k' hi h; simp only [runScalar] at h; cases h; exact hi
+  | cons op ops ih =>
+    intro k k' hi h
+    rw [runScalar_cons] at h
+    cases h1 : declScalar k op with
+    | error e => simp [h1] at h
+    | ok k1 =>
+      simp only [h1, bindE_ok] at h
+      exact ih k1 k' (inv_step k k1 op hi h1) h
+
+theorem inv_fresh (k : ScalarS) : Inv (freshOf k) := by
+  cases k <;> simp [freshOf, Inv, LenOK]
+
+theorem runScalar_append (a : List Op) : ∀ (k : ScalarS) (b : List Op),
+    runScalar k (a ++ b) = bindE (runScalar k a) (fun k' => runScalar k' b) := by
+  induction a with
+  | nil => intro k b; simp [runScalar]
+  | cons op a ih =>
+    intro k b
+    rw [List.cons_append, runScalar_cons, runScalar_cons]
+    cases declScalar k op with
+    | error e => rfl
+    | ok k1 => simp only [bindE_ok]; exact ih k1 b
+
+theorem stage_int_call (v : Option Int) :
+    runScalar (.int none none none) (optCall (fun x => .call (.v (.int x))) v) = .ok (.int v none none) := by
+  cases v <;> simp [optCall, runScalar, int_call, argInt, asInt]
+
+theorem stage_int_min (v mn mx : Option Int) (h : ∀ x n, v = some x → mn = some n → n ≤ x) :
+    runScalar (.int v none mx) (optCall (fun x => .min (.v (.int x))) mn) = .ok (.int v mn mx) := by
+  cases mn with
+  | none => simp [optCall, runScalar]
+  | some n =>
+    cases v with
+    | none => simp [optCall, runScalar, int_min, argInt, asInt]
+    | some x =>
+      have := h x n rfl rfl
+      have h' : ¬ x < n := by omega
+      simp [optCall, runScalar, int_min, argInt, asInt, h']
+
+theorem stage_int_max (v mn mx : Option Int) (h : ∀ x n, v = some x → mx = some n → x ≤ n) :
+    runScalar (.int v mn none) (optCall (fun x => .max (.v (.int x))) mx) = .ok (.int v mn mx) := by
+  cases mx with
+  | none => simp [optCall, runScalar]
+  | some n =>
+    cases v with
+    | none => simp [optCall, runScalar, int_max, argInt, asInt]
+    | some x =>
+      have := h x n rfl rfl
+      have h' : ¬ n < x := by omega
+      simp [optCall, runScalar, int_max, argInt, asInt, h']
+
+theorem replay_int (v mn mx : Option Int) (hi : Inv (.int v mn mx)) :
+    runScalar (.int none none none) (scalarCalls (.int v mn mx)) = .ok (.int v mn mx) := by
+  simp only [scalarCalls, runScalar_append, stage_int_call, bindE_ok, stage_int_min v mn none hi.1,
+    stage_int_max v mn mx hi.2]
+
+theorem stage_float_call (v : Option PyFloat) :
+    runScalar (.float none none none none none none) (optCall (fun x => .call (.v (.float x))) v) =
+      .ok (.float v none none none none none) := by
+  cases v <;> simp [optCall, runScalar, float_call, argFloat]
+
+theorem stage_float_min (v mn mx : Option PyFloat) (p : Option Nat) (d2 : Option Rat)
+    (h : ∀ x f, v = some x → mn = some f → PyFloat.le f x = true) :
+    runScalar (.float v none mx p none d2) (optCall (fun x => .min (.v (.float x))) mn) = .ok (.float v mn mx p none d2) := by
+  cases mn with
+  | none => simp [optCall, runScalar]
+  | some n =>
+    cases v with
+    | none => simp [optCall, runScalar, float_min, argFloat]
+    | some x =>
+      have := h x n rfl rfl
+      simp [optCall, runScalar, float_min, argFloat, this]
+
+theorem stage_float_max (v mn mx : Option PyFloat) (p : Option Nat) (d1 : Option Rat)
+    (h : ∀ x f, v = some x → mx = some f → PyFloat.ge f x = true) :
+    runScalar (.float v mn none p d1 none) (optCall (fun x => .max (.v (.float x))) mx) = .ok (.float v mn mx p d1 none) := by
+  cases mx with
+  | none => simp [optCall, runScalar]
+  | some n =>
+    cases v with
+    | none => simp [optCall, runScalar, float_max, argFloat]
+    | some x =>
+      have := h x n rfl rfl
+      simp [optCall, runScalar, float_max, argFloat, this]
+
+theorem stage_float_prec (v mn mx : Option PyFloat) (p : Option Nat) (d1 d2 : Option Rat)
+    (h : ∀ n, p = some n → 1 ≤ n ∧ n ≤ 15) :
+    runScalar (.float v mn mx none d1 d2) (optCall (fun (x : Nat) => .precision (.v (.int x))) p) = .ok (.float v mn mx p d1 d2) := by
+  cases p with
+  | none => simp [optCall, runScalar]
+  | some n =>
+    have := h n rfl
+    have hb : (decide (1 ≤ (n : Int)) && decide ((n : Int) ≤ (Consts.FLOAT_DIG : Int))) = true := by
+      rw [Bool.and_eq_true]
+      exact ⟨decide_eq_true (by omega), decide_eq_true (by simp only [Consts.FLOAT_DIG]; omega)⟩
+    simp only [optCall, runScalar, float_precision, argInt, asInt, hb]
+    simp
+
+theorem replay_float (v mn mx : Option PyFloat) (p : Option Nat) (d1 d2 : Option Rat) (hi : Inv (.float v mn mx p d1 d2)) :
+    runScalar (.float none none none none none none) (scalarCalls (.float v mn mx p d1 d2)) = .ok (.float v mn mx p d1 d2) := by
+  obtain ⟨rfl, rfl, h1, h2, h3⟩ := hi
+  simp only [scalarCalls, runScalar_append, stage_float_call, bindE_ok, stage_float_min v mn none none none h1,
+    stage_float_max v mn mx none none h2, stage_float_prec v mn mx p none none h3]
+
+
+theorem stage_str_call (v : Option Str) :
+    runScalar (.str none {} none none none) (optCall (fun x => .call (.v (.str x))) v) = .ok (.str v {} none none none) := by
+  cases v <;> simp [optCall, runScalar, str_call, argStr, LenP.anySet]
+
+theorem stage_str_alphabet (v : Option Str) (L : LenP) (al sub : Option Str)
+    (h : ∀ s l, v = some s → al = some l → s.all (fun c => l.contains c) = true) :
+    runScalar (.str v L none sub none) (optCall (fun x => .alphabet (.v (.str x))) al) = .ok (.str v L al sub none) := by
+  cases al with
+  | none => simp [optCall, runScalar]
+  | some l =>
+    cases v with
+    | none => simp [optCall, runScalar, str_alphabet, argStr]
+    | some s =>
+      have := h s l rfl rfl
+      simp only [optCall, runScalar, str_alphabet, argStr, this]
+      simp
+
+theorem stage_str_contains (v : Option Str) (L : LenP) (al sub : Option Str)
+    (h : ∀ s x, v = some s → sub = some x → isInfixB x s = true) :
+    runScalar (.str v L al none none) (optCall (fun x => .contains (.v (.str x))) sub) = .ok (.str v L al sub none) := by
+  cases sub with
+  | none => simp [optCall, runScalar]
+  | some l =>
+    cases v with
+    | none => simp [optCall, runScalar, str_contains, argStr]
+    | some s =>
+      have := h s l rfl rfl
+      simp only [optCall, runScalar, str_contains, argStr, this]
+      simp
+
+theorem stage_str_regex (v : Option Str) (al sub : Option Str) (pat : Option Pat)
+    (h : pat.isSome → al = none ∧ sub = none) :
+    runScalar (.str v {} al sub none) (optCall (fun x => .regex (.pat true x true)) pat) = .ok (.str v {} al sub pat) := by
+  cases pat with
+  | none => simp [optCall, runScalar]
+  | some p =>
+    obtain ⟨rfl, rfl⟩ := h rfl
+    cases v <;> simp [optCall, runScalar, str_regex, regexArg, LenP.anySet]
+
+theorem if_lt_neg {α} (a b : Int) (h : a ≤ b) (x y : α) : (if b < a then x else y) = y :=
+  if_neg (by omega)
+
+theorem stage_str_len (v : Option Str) (L : LenP) (al sub : Option Str) (pat : Option Pat)
+    (h : pat.isSome → L = {}) (hL : LenOK v L) :
+    runScalar (.str v {} al sub pat) (lenCall L) = .ok (.str v L al sub pat) := by
+  cases pat with
+  | some p => rw [h rfl]; simp [lenCall, runScalar]
+  | none =>
+    obtain ⟨l, mn, mx⟩ := L
+    obtain ⟨h1, h2⟩ := hL
+    cases l with
+    | some n =>
+      obtain ⟨rfl, rfl⟩ := h1 rfl
+      cases v with
+      | none =>
+        simp [lenCall, runScalar, str_len, LenP.anySet, strLen, declLenDispatch, argIsEllipsis, strDeclLen, argInt, asInt]
+      | some s =>
+        have := (h2 s rfl).1 n rfl
+        simp [lenCall, runScalar, str_len, LenP.anySet, strLen, declLenDispatch, argIsEllipsis, strDeclLen, argInt, asInt, this]
+    | none =>
+      cases v with
+      | none =>
+        cases mn <;> cases mx <;>
+        simp [lenCall, runScalar, str_len, LenP.anySet, strLen, declLenDispatch, argIsEllipsis, strDeclMin, strDeclMax, argInt, asInt, bind, Except.bind]
+      | some s =>
+        obtain ⟨_, h3, h4⟩ := h2 s rfl
+        cases mn with
+        | none =>
+          cases mx with
+          | none => simp [lenCall, runScalar]
+          | some b =>
+            have := h4 b rfl
+            simp [lenCall, runScalar, str_len, LenP.anySet, strLen, declLenDispatch, argIsEllipsis, strDeclMax,
+              argInt, asInt, if_lt_neg _ _ this]
+        | some a =>
+          have ha := h3 a rfl
+          cases mx with
+          | none =>
+            simp [lenCall, runScalar, str_len, LenP.anySet, strLen, declLenDispatch, argIsEllipsis, strDeclMin,
+              argInt, asInt, if_lt_neg _ _ ha]
+          | some b =>
+            have hb := h4 b rfl
+            simp [lenCall, runScalar, str_len, LenP.anySet, strLen, declLenDispatch, argIsEllipsis, strDeclMin, strDeclMax,
+              argInt, asInt, if_lt_neg _ _ ha, if_lt_neg _ _ hb, bind, Except.bind]
+
+
+theorem replay_str (v : Option Str) (L : LenP) (al sub : Option Str) (pat : Option Pat)
+    (hi : Inv (.str v L al sub pat)) :
+    runScalar (.str none {} none none none) (scalarCalls (.str v L al sub pat)) = .ok (.str v L al sub pat) := by
+  obtain ⟨h1, h2, h3, h4⟩ := hi
+  simp only [scalarCalls, runScalar_append, stage_str_call, bindE_ok, stage_str_alphabet v {} al none h3,
+    stage_str_contains v {} al sub h4, stage_str_regex v al sub pat (fun h => (h1 h).2),
+    stage_str_len v L al sub pat (fun h => (h1 h).1) h2]
+
+theorem replay_of_inv (k : ScalarS) (hi : Inv k) : runScalar (freshOf k) (scalarCalls k) = .ok k := by
+  cases k with
+  | none => rfl
+  | int v mn mx => exact replay_int v mn mx hi
+  | float v mn mx p d1 d2 => exact replay_float v mn mx p d1 d2 hi
+  | str v L al sub pat => exact replay_str v L al sub pat hi
+  | bool v => cases v <;> simp [freshOf, scalarCalls, optCall, runScalar, declScalar]
+  | bytes v => cases v <;> simp [freshOf, scalarCalls, optCall, runScalar, declScalar]
+  | datetime v => cases v <;> simp [freshOf, scalarCalls, optCall, runScalar, declScalar]
+  | date v => rcases v with _ | ⟨_ | _, i⟩ <;> simp [freshOf, scalarCalls, optCall, runScalar, declScalar]
+  | uuid4 v =>
+    rcases v with _ | ⟨i, ver⟩
+    · simp [freshOf, scalarCalls, optCall, runScalar]
+    · have : ver = 4 := hi i ver rfl
+      subst this
+      simp [freshOf, scalarCalls, optCall, runScalar, declScalar]
+
+/-- **C06 (scalars).** For every scalar schema that can be built through the DSL (reachable from the
+    empty schema by declaration calls), replaying the calls that `repr` prints rebuilds exactly that schema. -/
+theorem repr_scalar_roundtrip (k : ScalarS) (ops : List Op)
+    (hreach : runScalar (freshOf k) ops = .ok k) :
+    runScalar (freshOf k) (scalarCalls k) = .ok k :=
+  replay_of_inv k (inv_run ops _ _ (inv_fresh k) hreach)
+
+set_option linter.unusedVariables false in
+/-- the defect fixed by F2, as a theorem about the model: a str schema with a pattern has no length props,
+    so the printed order (regex before len) can never be rejected on replay -/
+theorem pattern_excludes_len (k : ScalarS) (ops : List Op) (v : Option Str) (L : LenP) (al sub : Option Str) (p : Pat)
+    (hreach : runScalar (.str none {} none none none) ops = .ok (.str v L al sub (some p))) :
+    L = {} ∧ al = none ∧ sub = none :=
+  (inv_run ops _ _ (inv_fresh (.str v L al sub (some p))) hreach).1 rfl
+
+
+theorem runScalar_single (k : ScalarS) (op : Op) : runScalar k [op] = declScalar k op := by
+  simp only [runScalar]; cases declScalar k op <;> rfl
+
+theorem bindE_eq_ok {x : Except PyExc ScalarS} {f : ScalarS → Except PyExc ScalarS} {k' : ScalarS}
+    (h : bindE x f = .ok k') : ∃ k1, x = .ok k1 ∧ f k1 = .ok k' := by
+  cases x with
+  | error e => simp at h
+  | ok k1 => exact ⟨k1, rfl, by simpa using h⟩
+
+theorem sinv_int_min (v mn mx : Option Int) (k1 : ScalarS)
+    (h : runScalar (.int v none mx) (optCall (fun x => .min (.v (.int x))) mn) = .ok k1) : k1 = .int v mn mx := by
+  cases mn with
+  | none => simp [optCall, runScalar] at h; exact h.symm
+  | some n =>
+    simp only [optCall, runScalar_single, int_min, argInt, asInt] at h
+    repeat' split at h
+    all_goals (try (simp at h; done))
+    all_goals (simp at h; exact h.symm)
+
+theorem sinv_int_max (v mn mx : Option Int) (k1 : ScalarS)
+    (h : runScalar (.int v mn none) (optCall (fun x => .max (.v (.int x))) mx) = .ok k1) : k1 = .int v mn mx := by
+  cases mx with
+  | none => simp [optCall, runScalar] at h; exact h.symm
+  | some n =>
+    simp only [optCall, runScalar_single, int_max, argInt, asInt] at h
+    repeat' split at h
+    all_goals (try (simp at h; done))
+    all_goals (simp at h; exact h.symm)
+
+theorem stable_int (v mn mx : Option Int) (k' : ScalarS)
+    (h : runScalar (.int none none none) (scalarCalls (.int v mn mx)) = .ok k') : k' = .int v mn mx := by
+  simp only [scalarCalls, runScalar_append, stage_int_call, bindE_ok] at h
+  obtain ⟨k1, h1, h2⟩ := bindE_eq_ok h
+  rw [sinv_int_min _ _ _ _ h1] at h2
+  exact sinv_int_max _ _ _ _ h2
+
+theorem sinv_float_min (v mn mx : Option PyFloat) (p : Option Nat) (d1 d2 : Option Rat) (k1 : ScalarS)
+    (h : runScalar (.float v none mx p d1 d2) (optCall (fun x => .min (.v (.float x))) mn) = .ok k1) :
+    ∃ d1', k1 = .float v mn mx p d1' d2 := by
+  cases mn with
+  | none => simp [optCall, runScalar] at h; exact ⟨_, h.symm⟩
+  | some n =>
+    simp only [optCall, runScalar_single, float_min, argFloat] at h
+    repeat' split at h
+    all_goals (try (simp at h; done))
+    all_goals (simp at h; exact ⟨_, h.symm⟩)
+
+theorem sinv_float_max (v mn mx : Option PyFloat) (p : Option Nat) (d1 d2 : Option Rat) (k1 : ScalarS)
+    (h : runScalar (.float v mn none p d1 d2) (optCall (fun x => .max (.v (.float x))) mx) = .ok k1) :
+    ∃ d2', k1 = .float v mn mx p d1 d2' := by
+  cases mx with
+  | none => simp [optCall, runScalar] at h; exact ⟨_, h.symm⟩
+  | some n =>
+    simp only [optCall, runScalar_single, float_max, argFloat] at h
+    repeat' split at h
+    all_goals (try (simp at h; done))
+    all_goals (simp at h; exact ⟨_, h.symm⟩)
+
+theorem sinv_float_prec (v mn mx : Option PyFloat) (p : Option Nat) (d1 d2 : Option Rat) (k1 : ScalarS)
+    (h : runScalar (.float v mn mx none d1 d2) (optCall (fun (x : Nat) => .precision (.v (.int x))) p) = .ok k1) :
+    k1 = .float v mn mx p d1 d2 := by
+  cases p with
+  | none => simp [optCall, runScalar] at h; exact h.symm
+  | some n =>
+    simp only [optCall, runScalar_single, float_precision, argInt, asInt] at h
+    repeat' split at h
+    all_goals (try (simp at h; done))
+    all_goals (simp at h; exact h.symm)
+
+theorem stable_float (v mn mx : Option PyFloat) (p : Option Nat) (d1 d2 : Option Rat) (k' : ScalarS)
+    (h : runScalar (.float none none none none none none) (scalarCalls (.float v mn mx p d1 d2)) = .ok k') :
+    ∃ d1' d2', k' = .float v mn mx p d1' d2' := by
+  simp only [scalarCalls, runScalar_append, stage_float_call, bindE_ok] at h
+  obtain ⟨k2, h', h3⟩ := bindE_eq_ok h
+  obtain ⟨k1, h1, h2⟩ := bindE_eq_ok h'
+  obtain ⟨d1', rfl⟩ := sinv_float_min _ _ _ _ _ _ _ h1
+  obtain ⟨d2', rfl⟩ := sinv_float_max _ _ _ _ _ _ _ h2
+  exact ⟨d1', d2', sinv_float_prec _ _ _ _ _ _ _ h3⟩
+
+
+theorem sinv_str_alphabet (v : Option Str) (L : LenP) (al sub : Option Str) (pat : Option Pat) (k1 : ScalarS)
+    (h : runScalar (.str v L none sub pat) (optCall (fun x => .alphabet (.v (.str x))) al) = .ok k1) :
+    k1 = .str v L al sub pat := by
+  cases al with
+  | none => simp [optCall, runScalar] at h; exact h.symm
+  | some n =>
+    simp only [optCall, runScalar_single, str_alphabet, argStr] at h
+    repeat' split at h
+    all_goals (try (simp at h; done))
+    all_goals (simp at h; exact h.symm)
+
+theorem sinv_str_contains (v : Option Str) (L : LenP) (al sub : Option Str) (pat : Option Pat) (k1 : ScalarS)
+    (h : runScalar (.str v L al none pat) (optCall (fun x => .contains (.v (.str x))) sub) = .ok k1) :
+    k1 = .str v L al sub pat := by
+  cases sub with
+  | none => simp [optCall, runScalar] at h; exact h.symm
+  | some n =>
+    simp only [optCall, runScalar_single, str_contains, argStr] at h
+    repeat' split at h
+    all_goals (try (simp at h; done))
+    all_goals (simp at h; exact h.symm)
+
+theorem sinv_str_regex (v : Option Str) (L : LenP) (al sub : Option Str) (pat : Option Pat) (k1 : ScalarS)
+    (h : runScalar (.str v L al sub none) (optCall (fun x => .regex (.pat true x true)) pat) = .ok k1) :
+    k1 = .str v L al sub pat := by
+  cases pat with
+  | none => simp [optCall, runScalar] at h; exact h.symm
+  | some n =>
+    simp only [optCall, runScalar_single, str_regex, regexArg] at h
+    repeat' split at h
+    all_goals (try (simp at h; done))
+    all_goals (simp at h; exact h.symm)
+
+theorem sinv_str_len (v : Option Str) (L : LenP) (al sub : Option Str) (pat : Option Pat) (k1 : ScalarS)
+    (h : runScalar (.str v {} al sub pat) (lenCall L) = .ok k1) :
+    ∃ L', k1 = .str v L' al sub pat ∧ reprLen L' = reprLen L := by
+  obtain ⟨l, mn, mx⟩ := L
+  cases l with
+  | some n =>
+    simp only [lenCall, runScalar_single, str_len] at h
+    split at h
+    · cases h
+    · cases h1 : strLen v {} (.v (.int n)) .nil with
+      | error e => simp [h1] at h
+      | ok L1 =>
+        simp only [h1] at h
+        cases h
+        refine ⟨L1, rfl, ?_⟩
+        simp [strLen, declLenDispatch, argIsEllipsis] at h1
+        obtain ⟨n', hn', rfl, _⟩ := strDeclLen_ok _ _ _ _ h1
+        simp [argInt, asInt] at hn'
+        subst hn'
+        simp [reprLen]
+  | none =>
+    cases mn with
+    | none =>
+      cases mx with
+      | none => simp [lenCall, runScalar] at h; exact ⟨_, h.symm, rfl⟩
+      | some b =>
+        simp only [lenCall, runScalar_single, str_len] at h
+        split at h
+        · cases h
+        · cases h1 : strLen v {} (.v .ellipsis) (.v (.int b)) with
+          | error e => simp [h1] at h
+          | ok L1 =>
+            simp only [h1] at h
+            cases h
+            refine ⟨L1, rfl, ?_⟩
+            simp [strLen, declLenDispatch, argIsEllipsis] at h1
+            obtain ⟨n', hn', rfl, _⟩ := strDeclMax_ok _ _ _ _ h1
+            simp [argInt, asInt] at hn'
+            subst hn'
+            simp [reprLen]
+    | some a =>
+      cases mx with
+      | none =>
+        simp only [lenCall, runScalar_single, str_len] at h
+        split at h
+        · cases h
+        · cases h1 : strLen v {} (.v (.int a)) (.v .ellipsis) with
+          | error e => simp [h1] at h
+          | ok L1 =>
+            simp only [h1] at h
+            cases h
+            refine ⟨L1, rfl, ?_⟩
+            simp [strLen, declLenDispatch, argIsEllipsis] at h1
+            obtain ⟨n', hn', rfl, _⟩ := strDeclMin_ok _ _ _ _ h1
+            simp [argInt, asInt] at hn'
+            subst hn'
+            simp [reprLen]
+      | some b =>
+        simp only [lenCall, runScalar_single, str_len] at h
+        split at h
+        · cases h
+        · cases h1 : strLen v {} (.v (.int a)) (.v (.int b)) with
+          | error e => simp [h1] at h
+          | ok L1 =>
+            simp only [h1] at h
+            cases h
+            refine ⟨L1, rfl, ?_⟩
+            simp [strLen, declLenDispatch, argIsEllipsis] at h1
+            cases h2 : strDeclMin v {} (.v (.int a)) with
+            | error e => simp [h2, bind, Except.bind] at h1
+            | ok L2 =>
+              simp [h2, bind, Except.bind] at h1
+              obtain ⟨n', hn', rfl, _⟩ := strDeclMin_ok _ _ _ _ h2
+              obtain ⟨m', hm', rfl, _⟩ := strDeclMax_ok _ _ _ _ h1
+              simp [argInt, asInt] at hn' hm'
+              subst hn' hm'
+              simp [reprLen]
+
+
+theorem stable_str (v : Option Str) (L : LenP) (al sub : Option Str) (pat : Option Pat) (k' : ScalarS)
+    (h : runScalar (.str none {} none none none) (scalarCalls (.str v L al sub pat)) = .ok k') :
+    ∃ L', k' = .str v L' al sub pat ∧ reprLen L' = reprLen L := by
+  simp only [scalarCalls, runScalar_append, stage_str_call, bindE_ok] at h
+  obtain ⟨k3, h', h4⟩ := bindE_eq_ok h
+  obtain ⟨k2, h'', h3⟩ := bindE_eq_ok h'
+  obtain ⟨k1, h1, h2⟩ := bindE_eq_ok h''
+  rw [sinv_str_alphabet _ _ _ _ _ _ h1] at h2
+  rw [sinv_str_contains _ _ _ _ _ _ h2] at h3
+  rw [sinv_str_regex _ _ _ _ _ _ h3] at h4
+  exact sinv_str_len _ _ _ _ _ _ h4
+
+/-- …and the rebuilt schema prints the same (determinism of the text) -/
+theorem repr_scalar_stable (k k' : ScalarS) (h : runScalar (freshOf k) (scalarCalls k) = .ok k') :
+    reprScalar k' = reprScalar k := by
+  cases k with
+  | none => simp [freshOf, scalarCalls, runScalar] at h; rw [← h]
+  | int v mn mx => rw [stable_int v mn mx k' h]
+  | float v mn mx p d1 d2 =>
+    obtain ⟨d1', d2', rfl⟩ := stable_float v mn mx p d1 d2 k' h
+    simp [reprScalar]
+  | str v L al sub pat =>
+    obtain ⟨L', rfl, hL⟩ := stable_str v L al sub pat k' h
+    simp [reprScalar, hL]
+  | bool v =>
+    cases v <;> simp [freshOf, scalarCalls, optCall, runScalar, declScalar] at h <;> rw [← h]
+  | bytes v =>
+    cases v <;> simp [freshOf, scalarCalls, optCall, runScalar, declScalar] at h <;> rw [← h]
+  | datetime v =>
+    cases v <;> simp [freshOf, scalarCalls, optCall, runScalar, declScalar] at h <;> rw [← h]
+  | date v =>
+    rcases v with _ | ⟨_ | _, i⟩ <;> simp [freshOf, scalarCalls, optCall, runScalar, declScalar] at h <;> rw [← h]
+  | uuid4 v =>
+    rcases v with _ | ⟨i, ver⟩
+    · simp [freshOf, scalarCalls, optCall, runScalar] at h; rw [← h]
+    · simp only [freshOf, scalarCalls, optCall, runScalar_single, declScalar] at h
+      repeat' split at h
+      all_goals (try (cases h; done))
+      cases h; rfl
+
+end D42
